@@ -128,17 +128,21 @@ func TestC13Lifecycle(t *testing.T) {
 		kinds := []string{"closeInAttaching", "closeInAttached", "closeLater", "peerDrop", "protoRefuse", "closeRacingAttach", "leave", "leave"}
 		raceUs := make([]int, nconn)    // closeRacingAttach: Close lands this long after the Attaching callback returned
 		dialFails := make([]int, nconn) // dialer side: this many attempts fail before the connection is made
+		lingerMs := make([]int, nconn)  // closeInAttaching / closeInAttached: the callback stays busy this long after closing the pipe (longer than the dialer's reconnect time)
 		for i := range plans {
 			plans[i] = rapid.SampledFrom(kinds).Draw(t, "plan")
 			sides[i] = rapid.SampledFrom([]string{"listener", "dialer"}).Draw(t, "side")
 			if plans[i] == "closeRacingAttach" {
 				raceUs[i] = rapid.SampledFrom([]int{0, 1, 2, 3, 5, 8, 13, 20, 40}).Draw(t, "raceUs")
 			}
+			if plans[i] == "closeInAttaching" || plans[i] == "closeInAttached" {
+				lingerMs[i] = rapid.SampledFrom([]int{0, 0, 0, 3, 8}).Draw(t, "hookLingersMs")
+			}
 			if sides[i] == "dialer" && rapid.IntRange(0, 3).Draw(t, "dialFails") == 0 {
 				dialFails[i] = rapid.IntRange(1, 2).Draw(t, "nDialFails")
 			}
 		}
-		doc := map[string]interface{}{"test": "TestC13Lifecycle", "base": base, "plans": plans, "sides": sides, "race_us": raceUs, "dial_fails": dialFails, "rseed": os.Getenv("VERIF_RSEED")}
+		doc := map[string]interface{}{"test": "TestC13Lifecycle", "base": base, "plans": plans, "sides": sides, "race_us": raceUs, "dial_fails": dialFails, "hook_lingers_ms": lingerMs, "rseed": os.Getenv("VERIF_RSEED")}
 		var fmu sync.Mutex
 		var failures [][2]string
 		fail := func(k, f string, a ...interface{}) {
@@ -163,6 +167,7 @@ func TestC13Lifecycle(t *testing.T) {
 		live := map[uint32]mangos.Pipe{}
 		curPlan := "" // plan of the connection being established (connections are made one at a time)
 		curRace := 0
+		curLinger := 0
 		sock.SetPipeEventHook(func(ev mangos.PipeEvent, p mangos.Pipe) {
 			// The id must be allocated on entry to every callback (checked before the event becomes
 			// visible to the harness, which may then close the pipe and thereby end its life).
@@ -180,6 +185,7 @@ func TestC13Lifecycle(t *testing.T) {
 			pi.events = append(pi.events, ev)
 			plan := curPlan
 			race := curRace
+			linger := time.Duration(curLinger) * time.Millisecond
 			id := p.ID()
 			switch ev {
 			case mangos.PipeEventAttaching:
@@ -197,6 +203,7 @@ func TestC13Lifecycle(t *testing.T) {
 			case mangos.PipeEventAttaching:
 				if plan == "closeInAttaching" {
 					_ = p.Close()
+					time.Sleep(linger) // the application's callback is still busy while the dialer's redial timer fires
 				}
 				if plan == "closeRacingAttach" {
 					// somebody else closes the pipe just as the socket goes on to add it
@@ -209,6 +216,7 @@ func TestC13Lifecycle(t *testing.T) {
 			case mangos.PipeEventAttached:
 				if plan == "closeInAttached" {
 					_ = p.Close()
+					time.Sleep(linger)
 				}
 			case mangos.PipeEventDetached:
 				mu.Lock()
@@ -289,6 +297,7 @@ func TestC13Lifecycle(t *testing.T) {
 			mu.Lock()
 			curPlan = plan
 			curRace = raceUs[i]
+			curLinger = lingerMs[i]
 			n0 := len(arrival)
 			mu.Unlock()
 			var vp *vt.Pipe
@@ -479,6 +488,12 @@ func TestC13Lifecycle(t *testing.T) {
 		}
 		stats.Eval()
 		stats.Class("base:" + base)
+		for i := range lingerMs {
+			if lingerMs[i] > 0 && sides[i] == "dialer" {
+				stats.Class("hook_lingers_after_close_dialer_side")
+				break
+			}
+		}
 		if hookSide {
 			stats.Class("hook_side_close")
 		}
